@@ -105,6 +105,39 @@ Theorem C10_queue_length_is_configured : forall rx q opened, init_mux_cfg rx q o
 Proof. exact queue_length_is_configured. Qed.
 Print Assumptions C10_queue_length_is_configured.
 
+(* ---- deadlines on a logical connection.  conn.SetDeadline / SetReadDeadline / SetWriteDeadline are stubs that
+   return nil (whether they are is read from mux.go on every run: MuxConsts.deadlines_are_stubs): a deadline armed
+   on one connection touches neither the Mux nor the trunk all connections share ---- *)
+Theorem C10_deadline_is_noop : forall id k s, fst (step s (EvDeadline id k)) = s.
+Proof. exact (deadline_is_noop max_payload_size). Qed.
+Print Assumptions C10_deadline_is_noop.
+
+(* for every schedule with deadline operations anywhere, on any connections, of any kind: the final state and,
+   call for call, the results of all other calls are those of the schedule without them; in particular what every
+   connection has received and still has queued is the same *)
+Theorem C10_deadlines_change_nothing : forall evs s,
+  fst (run s evs) = fst (run s (filter not_deadline evs)) /\
+  filter (fun eo => not_deadline (fst eo)) (snd (run s evs)) = snd (run s (filter not_deadline evs)).
+Proof. exact (deadlines_change_nothing max_payload_size). Qed.
+Print Assumptions C10_deadlines_change_nothing.
+
+Theorem C10_deadlines_delivery_unaffected : forall evs s id,
+  received id (snd (run s evs)) = received id (snd (run s (filter not_deadline evs))) /\
+  queue_in id (fst (run s evs)) = queue_in id (fst (run s (filter not_deadline evs))).
+Proof. exact (deadlines_delivery_unaffected max_payload_size). Qed.
+Print Assumptions C10_deadlines_delivery_unaffected.
+
+(* the variant that forwards the deadline to the shared trunk does not have the property: a read deadline armed on
+   connection 1 expires, the reader fails, the Mux closes, the frame written to connection 2 is never delivered *)
+Theorem C10_deadline_forwarded_refuted :
+  let evs := [EvDeadline 1 DRead; EvReader; EvRead 2 true] in
+  let '(s, tr) := run_var4 true true true false max_payload_size (init_mux (trunk [(2, [7; 8])]) 4 [1; 2]) evs in
+  m_closed s = true /\ map snd tr = [ROk; ROk; RErr EErr] /\
+  let '(s', tr') := run (init_mux (trunk [(2, [7; 8])]) 4 [1; 2]) evs in
+  m_closed s' = false /\ map snd tr' = [ROk; ROk; RData [7; 8]].
+Proof. exact deadline_forwarded_refuted. Qed.
+Print Assumptions C10_deadline_forwarded_refuted.
+
 (* ---- the caller's buffer (conn.Read's guard, copy and count; which of len/cap the guard tests is read
    from mux.go on every run: MuxConsts.read_checks_len) ---- *)
 
